@@ -10,15 +10,17 @@
 (* consumed by the action of RopeEffects' contract it corresponds to, and  *)
 (* the contract's clauses are evaluated as invariants after every event    *)
 (* (on the recorded sets).  A trace with events in an order the contract   *)
-(* does not allow deadlocks.                                               *)
+(* does not allow deadlocks.  A trace also says whether the driver issued  *)
+(* a request of a class that cannot be honoured (`impossible`, decided by  *)
+(* the scenario, not by rope): then only a refusal is accepted.            *)
 (***************************************************************************)
 EXTENDS Naturals, Sequences, FiniteSets, TLC, Json, IOUtils
 
 Batch == JsonDeserialize(IOEnv.TRACE_FILE)
 Traces == Batch.traces
 
-VARIABLES tid, l, phase, announced, lastChanged, lastUnpreviewed, err
-vars == <<tid, l, phase, announced, lastChanged, lastUnpreviewed, err>>
+VARIABLES tid, l, phase, announced, lastChanged, lastUnpreviewed, err, impossible
+vars == <<tid, l, phase, announced, lastChanged, lastUnpreviewed, err, impossible>>
 
 Ev == Traces[tid].events
 ToSet(s) == { s[k] : k \in 1..Len(s) }
@@ -31,8 +33,9 @@ TraceInit ==
   /\ lastChanged = {}
   /\ lastUnpreviewed = {}
   /\ err = "none"
+  /\ impossible = Traces[tid].impossible
 
-IsEvent(e) == l <= Len(Ev) /\ Ev[l].ev = e /\ l' = l + 1 /\ UNCHANGED tid
+IsEvent(e) == l <= Len(Ev) /\ Ev[l].ev = e /\ l' = l + 1 /\ UNCHANGED <<tid, impossible>>
 
 TraceCompute ==
   /\ IsEvent("compute")
@@ -70,4 +73,5 @@ InsideProject  == phase \in {"computed", "done"} => \A a \in announced : a.regio
 NothingOutside == \A f \in lastChanged : f.region = "project"
 PreviewMatches == phase = "done" => lastUnpreviewed = {}
 RefusalClean   == phase = "refused" => (lastChanged = {} /\ err = "rope")
+RefusesImpossible == impossible => phase \in {"idle", "refused"}
 =============================================================================
